@@ -12,12 +12,12 @@ BASELINE_OFF = ("cd /repo && cargo nextest run --workspace --no-fail-fast --test
 
 CLAIMS = {
     "C09": dict(
-        text="Lean theorems for all 2^32 pairs (omega, no enumeration): seq_nr_offset equals true signed modular distance and SeqNr's Ord agrees with its sign whenever the distance is within the tolerance; shift (relabelling) lemma; and the side condition that the regenerated WRAP_TOLERANCE covers the default receive windows. Model tied to utils.rs/seq_nr.rs by a differential over edge x edge pairs and random pairs.",
+        text="Lean theorems for all 2^32 pairs (omega, no enumeration): seq_nr_offset equals true signed modular distance and SeqNr's Ord agrees with its sign whenever the distance is within the tolerance; shift (relabelling) lemma; and the side condition that the regenerated WRAP_TOLERANCE covers the default receive windows. Model tied to utils.rs/seq_nr.rs by a differential over edge x edge pairs and random pairs. The model's seq_nr_offset is proved equal (generated_seq_nr_offset) to the definition regenerated from utils.rs by tools/translate_fns.py on every run, so the arithmetic theorems are about the current source text of that function.",
         note="Trusted: Lean kernel (axioms propext, Quot.sound, Classical.choice at most), constants translator, harness. Whole-connection relabelling (packet traces under shifted ISNs) is stated with the hypothesis that every compared distance is within tolerance; the per-component shift theorems are added as the component models land.",
         technique="Lean 4 proof (omega over Nat/Int model of 16-bit arithmetic) + regenerated constants + differential correspondence",
         ref="5 C09"),
     "C16": dict(
-        text="Lean theorems by induction over every sample/timeout sequence: RTO in [200 ms, 60 s] always; RTO = clamp(SRTT + max(4 RTTVAR, 10 ms)) after each sample; a timeout gives min(2 RTO, 60 s) and n timeouts min(2^n RTO, 60 s); a sample after any back-off returns the sample-derived value; SRTT between min and max sample. Constants regenerated from rtte.rs; model tied by exact-equality differential. The rtte oracle also runs the same samples without the timeouts (metamorphic): after every sample the RTO must be the same.",
+        text="Lean theorems by induction over every sample/timeout sequence: RTO in [200 ms, 60 s] always; RTO = clamp(SRTT + max(4 RTTVAR, 10 ms)) after each sample; a timeout gives min(2 RTO, 60 s) and n timeouts min(2^n RTO, 60 s); a sample after any back-off returns the sample-derived value; SRTT between min and max sample. Constants regenerated from rtte.rs; model tied by exact-equality differential. The rtte oracle also runs the same samples without the timeouts (metamorphic): after every sample the RTO must be the same. clamp, calc_rto, duration_abs_diff and the two assignments of RttEstimator::sample are regenerated from rtte.rs on every run (tools/translate_fns.py) and proved equal to the model's (generated_clamp, generated_calc_rto, generated_abs_diff, generated_sample_update, all by rfl): an edit of the RTO formula breaks those proofs. The rtte oracle also checks RTO >= clamp(SRTT + 10 ms).",
         note="Trusted: Lean kernel, constants translator, harness. Assumes Duration arithmetic does not overflow (samples < 2^63 ns).",
         technique="Lean 4 proof (induction over event lists, omega) + regenerated constants + differential correspondence",
         ref="5 C16"),
@@ -30,7 +30,7 @@ CLAIMS["C11"] = dict(
     ref="5 C11")
 
 CLAIMS["C14"] = dict(
-    text="Lean theorems for every link MTU (u16), both address families and every operation sequence with arbitrary (peer-controlled) sizes: 1 <= min_ss <= max_ss <= link-MTU payload ceiling; every size handed to segmentation is within the ceiling, ordinary = proven size, probe in (min_ss, max_ss]; next_probe cannot overflow u16; against a consistent path oracle the bracket min_ss <= P <= max_ss is kept and the gap at least halves per probe outcome, so after n outcomes with 2^n > initial gap min_ss = max_ss = P and probing stops (10 outcomes for the default IPv4 start). Model tied to mtu.rs by differential incl. a path-oracle family; implementation-side oracle checks ceiling, order and convergence bound.",
+    text="Lean theorems for every link MTU (u16), both address families and every operation sequence with arbitrary (peer-controlled) sizes: 1 <= min_ss <= max_ss <= link-MTU payload ceiling; every size handed to segmentation is within the ceiling, ordinary = proven size, probe in (min_ss, max_ss]; next_probe cannot overflow u16; against a consistent path oracle the bracket min_ss <= P <= max_ss is kept and the gap at least halves per probe outcome, so after n outcomes with 2^n > initial gap min_ss = max_ss = P and probing stops (10 outcomes for the default IPv4 start). Model tied to mtu.rs by differential incl. a path-oracle family; implementation-side oracle checks ceiling, order and convergence bound. next_probe is regenerated from mtu.rs on every run and proved equal to the model's (generated_next_probe). Oracle probe_discipline also rejects an oversized segment that is retransmitted like an ordinary one.",
     note="Trusted: Lean kernel, constants translator, harness. Component level (mtu.rs). The segmentation-side clauses (ordinary segments <= min_ss as enqueued, at most one outstanding probe and it is the newest, data intact on a blackholing path) belong to the connection model; until that layer is claimed they are covered by the C01/C14 parts marked pending in evidence.",
     technique="Lean 4 proof (invariant by induction over op lists, halving argument) + regenerated constants + differential correspondence",
     ref="5 C14")
@@ -60,12 +60,12 @@ CLAIMS["C05"] = dict(
     technique="Lean 4 proof (induction over the send loop) + lockstep correspondence + window oracle",
     ref="5 C05")
 CLAIMS["C07"] = dict(
-    text="Lean theorems about maybe_send_ack / next_timer_to_poll for every state: if the unacknowledged bytes reached 2 x segment size (every forced case sets them to usize::MAX), or the window flipped to/from zero, or the delayed-ACK timer expired with something to acknowledge, send_ack runs; otherwise any unacknowledged consumed byte leaves the delayed-ACK timer armed with deadline <= now + 40 ms and never later than it was; otherwise nothing is sent; the re-poll time handed to the runtime is <= the delayed-ACK deadline; ACK_DELAY = 40 ms and the factor 2 are the regenerated constants. Lockstep correspondence + ack-timeliness oracle (re-poll requested within 40 ms, ACK on the wire by then). Implementation-side oracles added: ack_forcing (two-segment threshold; a duplicate / out-of-order packet is answered in the poll that processes it, also inside a batch with packets that raise the segment size and after a blocked transport) and window_reopen (after an advertised zero window the first read that takes bytes wakes the connection) - the latter found defect D21 on the unchanged tree (fixed, 2a22d41); the supporting theorems are C02 zero_window_means_waker_registered / flush_registers_when_window_low / read_wakes_dispatcher.",
+    text="Lean theorems about maybe_send_ack / next_timer_to_poll for every state: if the unacknowledged bytes reached 2 x segment size (every forced case sets them to usize::MAX), or the window flipped to/from zero, or the delayed-ACK timer expired with something to acknowledge, send_ack runs; otherwise any unacknowledged consumed byte leaves the delayed-ACK timer armed with deadline <= now + 40 ms and never later than it was; otherwise nothing is sent; the re-poll time handed to the runtime is <= the delayed-ACK deadline; ACK_DELAY = 40 ms and the factor 2 are the regenerated constants. Lockstep correspondence + ack-timeliness oracle (re-poll requested within 40 ms, ACK on the wire by then). Implementation-side oracles added: ack_forcing (two-segment threshold; a duplicate / out-of-order packet is answered in the poll that processes it, also inside a batch with packets that raise the segment size and after a blocked transport) and window_reopen (after an advertised zero window the first read that takes bytes wakes the connection) - the latter found defect D21 on the unchanged tree (fixed, 2a22d41); the supporting theorems are C02 zero_window_means_waker_registered / flush_registers_when_window_low / read_wakes_dispatcher. rx_window and immediate_ack_to_transmit are regenerated from stream_dispatch.rs on every run and proved equal to the model's (generated_rx_window, generated_immediate_ack).",
     note=L2NOTE + "That the runtime actually re-polls at the requested time is the tokio assumption shared with C02. The forcing sites inside process_incoming_message (duplicate / out-of-order / gap fill / FIN set the counter to MAX and send at once) are covered by the lockstep, not by a separate theorem.",
     technique="Lean 4 proof (case analysis of the ACK decision, min-fold lemma) + lockstep correspondence + timing oracle",
     ref="5 C07")
 CLAIMS["C17"] = dict(
-    text="Lean theorems over the transition table (stateGate) and the FIN/SYN-ACK functions for every state and header: closing on own initiative assigns the next sequence number to the FIN exactly once; the FIN is emitted only when fin - last_sent = 1 (everything before it transmitted), is an ST_FIN with that number, arms the retransmission timer; a RESET always ends in Closed with StResetReceived unless LastAck and it acknowledges our FIN, and emits nothing; SYN is ignored; an out-of-sequence FIN is dropped without state change in Established/FinWait1/FinWait2; an in-sequence FIN in Established moves to LastAck scheduling our FIN; SynAckSent is left only by DATA/STATE acknowledging seq_nr-1; SYN-ACK resend waits for the 200 ms timer and fails with MaxSynAckRetransmissionsReached at the cap. Lockstep correspondence incl. a handshake/teardown matrix family + stream-content/FIN oracle. Added: fin_not_withheld_after_full_ack (for all 16-bit values within the comparison tolerance the clamp applied after acknowledgement processing leaves fin - last_sent = 1 once everything before the FIN is acknowledged: the D17 fix as a theorem).",
+    text="Lean theorems over the transition table (stateGate) and the FIN/SYN-ACK functions for every state and header: closing on own initiative assigns the next sequence number to the FIN exactly once; the FIN is emitted only when fin - last_sent = 1 (everything before it transmitted), is an ST_FIN with that number, arms the retransmission timer; a RESET always ends in Closed with StResetReceived unless LastAck and it acknowledges our FIN, and emits nothing; SYN is ignored; an out-of-sequence FIN is dropped without state change in Established/FinWait1/FinWait2; an in-sequence FIN in Established moves to LastAck scheduling our FIN; SynAckSent is left only by DATA/STATE acknowledging seq_nr-1; SYN-ACK resend waits for the 200 ms timer and fails with MaxSynAckRetransmissionsReached at the cap. Lockstep correspondence incl. a handshake/teardown matrix family + stream-content/FIN oracle. Added: fin_not_withheld_after_full_ack (for all 16-bit values within the comparison tolerance the clamp applied after acknowledgement processing leaves fin - last_sent = 1 once everything before the FIN is acknowledged: the D17 fix as a theorem). Oracle rtx_timer now also judges LastAck (our FIN unacknowledged implies an armed retransmission timer).",
     note=L2NOTE + "The FIN rules are stated for closing on the endpoint's own initiative (FinWait1); a FIN sent in answer to the peer's FIN, or on the death path, may precede unsent data by design (data after a remote FIN is discarded).",
     technique="Lean 4 proof (transition-table case analysis) + lockstep correspondence + FIN/stream oracle",
     ref="5 C17")
@@ -90,7 +90,7 @@ CLAIMS["C08"] = dict(
     technique="Lean 4 proof (timer and transition lemmas) + lockstep correspondence",
     ref="5 C08")
 CLAIMS["C10"] = dict(
-    text="Lean theorems, for every byte string / header and every state satisfying the component invariant: the parser returns a header size within the datagram or rejects (never panics); any ack_nr with any selective-ACK bytes leaves the TX queue consistent and cannot underflow; any data/FIN packet at any offset leaves the reassembly queue consistent, never BugAssemblerMissingSlot, flush cannot panic; BugInvalidMessage only for types the connection never passes; iteration and probe pops never panic; the transition table fails only with StResetReceived outside SynReceived. Wire/Segments/Rx differentials + lockstep with a hostile peer stream + bug_errors oracle (found and fixed: BugRecvInClosed reachable with a blocked transport).",
+    text="Lean theorems, for every byte string / header and every state satisfying the component invariant: the parser returns a header size within the datagram or rejects (never panics); any ack_nr with any selective-ACK bytes leaves the TX queue consistent and cannot underflow; any data/FIN packet at any offset leaves the reassembly queue consistent, never BugAssemblerMissingSlot, flush cannot panic; BugInvalidMessage only for types the connection never passes; iteration and probe pops never panic; the transition table fails only with StResetReceived outside SynReceived. Wire/Segments/Rx differentials + lockstep with a hostile peer stream + bug_errors oracle (found and fixed: BugRecvInClosed reachable with a blocked transport). Oracle sock_calls: a pending accept() on a live socket is never failed, whatever arrives.",
     note=L2NOTE + "PARTIAL: 'poll never ends in Bug*' is proved per component, the composition over poll is covered by the lockstep + oracle; cross-connection isolation is a socket-table fact (C12); the per-connection UnboundedReceiver has no bound in the code (TODO in the source) and is an assumption.",
     technique="Lean 4 proof (component invariants for all inputs) + differentials + lockstep correspondence with hostile peer",
     ref="5 C10")
